@@ -419,28 +419,35 @@ Fixpoint comments_of (ls : list str) : list str :=
               end
   end.
 
-(* a feature with several locations as fts2row sees it (stockholm.py:61-63, 82-87): LocationTuple keeps '+' locations
-   sorted by start (fts.py:186-189); range = (min start, max stop); the left end is judged on the first location's defect,
-   the right end on the last location's *)
+(* a feature with several locations as fts2row sees it (stockholm.py:61-63, 82-87).
+   LocationTuple.range (fts.py:192-202) = (min of the starts, max of the stops) over ALL locations;
+   LocationTuple.__new__ keeps '+' locations sorted by start and '-' locations by stop, descending (fts.py:186-189, stable);
+   the left end is judged on the first location's defect, the right end on the last location's *)
 Definition loc3 := (nat * nat * N)%type.
-Fixpoint ins_loc (x : loc3) (l : list loc3) : list loc3 :=
+Definition l_start (x : loc3) : nat := fst (fst x).
+Definition l_stop (x : loc3) : nat := snd (fst x).
+Definition range_start (locs : list loc3) : nat :=
+  match locs with [] => 0 | x :: r => fold_left Nat.min (map l_start r) (l_start x) end.
+Definition range_stop (locs : list loc3) : nat :=
+  match locs with [] => 0 | x :: r => fold_left Nat.max (map l_stop r) (l_stop x) end.
+Fixpoint ins_loc (minus : bool) (x : loc3) (l : list loc3) : list loc3 :=
   match l with
   | [] => [x]
-  | y :: r => if Nat.ltb (fst (fst x)) (fst (fst y)) then x :: l else y :: ins_loc x r
+  | y :: r => if (if minus then Nat.ltb (l_stop y) (l_stop x) else Nat.ltb (l_start x) (l_start y))
+              then x :: l else y :: ins_loc minus x r
   end.
-Definition multi_ft (name : str) (locs : list loc3) : ft :=
-  let sorted := fold_left (fun acc x => ins_loc x acc) locs [] in
-  match sorted with
+Definition sort_locs (minus : bool) (locs : list loc3) : list loc3 := fold_left (fun acc x => ins_loc minus x acc) locs [].
+Definition multi_ft (name : str) (minus : bool) (locs : list loc3) : ft :=
+  match sort_locs minus locs with
   | [] => mkft 0 0 0 name
-  | f :: _ =>
+  | f :: _ as sorted =>
       let lst := last sorted f in
-      mkft (fold_left Nat.min (map (fun x => fst (fst x)) sorted) (fst (fst f)))
-           (fold_left Nat.max (map (fun x => snd (fst x)) sorted) 0)
+      mkft (range_start locs) (range_stop locs)
            (N.lor (N.land (snd f) (N.lor D_MISS_LEFT D_BEYOND_LEFT)) (N.land (snd lst) (N.lor D_MISS_RIGHT D_BEYOND_RIGHT)))
            name
   end.
 
-Definition run_C15 (op : N) (alns : list aln) (n : nat) (t : str) (fts : list ft) (mf : list (str * list loc3)) : val :=
+Definition run_C15 (op : N) (alns : list aln) (n : nat) (t : str) (fts : list ft) (mf : list (str * bool * list loc3)) : val :=
   match op with
   | 0%N => match alns with
            | a :: _ => VL [VB (wf_aln a); VL [VS (write_text a); show_read (read_text (write_text a))]]
@@ -463,8 +470,9 @@ Definition run_C15 (op : N) (alns : list aln) (n : nat) (t : str) (fts : list ft
   | 7%N => let r1 := fts2row fts in
            VL [VB (wf_fts fts); VL [show_res r1; match r1 with ROk s => show_fts (row2fts s) | RErr e => VE e end]]
   | 8%N => VL [VB (wf_text t); VL [show_read (read_text t); VL (map VS (comments_of (py_lines t)))]]
-  | _ => let l := map (fun x => multi_ft (fst x) (snd x)) mf in
-         VL [VB (wf_fts l); show_res (fts2row l)]
+  | _ => let l := map (fun x => multi_ft (fst (fst x)) (snd (fst x)) (snd x)) mf in
+         let r1 := fts2row l in
+         VL [VB (wf_fts l); VL [show_res r1; match r1 with ROk s => show_fts (row2fts s) | RErr e => VE e end]]
   end.
 
 (* histories (state-independence stream): the model is pure, so a history is the list of the single results *)
